@@ -851,7 +851,7 @@ def compare_exec(ctx, item, reply):
     ctx.traces += 1
     o = rep[1].split(':')
     real = ['r', None] if got[0] == 'r' else ['x', None]
-    ident = getattr(got[1], 'i', None) if got[0] == 'r' else None
+    ident = (0 if got[1] is None else getattr(got[1], 'i', None)) if got[0] == 'r' else None
     if got[0] == 'x':
         s = str(got[1].args[0]) if getattr(got[1], 'args', None) else ''
         ident = int(s.split(' ')[1]) if s.startswith('exc ') else None
